@@ -26,6 +26,7 @@ pub fn ym_route(r: &Value) -> TemporalResult<PlainYearMonth> {
         "partial" => PlainYearMonth::from_partial(partial_date(&r["p"])?, r_ovf(r)),
         "new" => PlainYearMonth::new_with_overflow(js::i(r, "y") as i32, js::i(r, "m") as u8, r.get("rd").and_then(|x| x.as_i64()).map(|x| x as u8), iso(), r_ovf(r)),
         "with" => arg_ym(&r["recv"])?.with(partial_date(&r["p"])?, arg_ovf(r)),
+        "default" => Ok(PlainYearMonth::default()),
         k => panic!("year-month route {}", k),
     }
 }
@@ -34,6 +35,7 @@ pub fn md_route(r: &Value) -> TemporalResult<PlainMonthDay> {
         "str" => PlainMonthDay::from_str(js::s(r, "s")),
         "date" => arg_date(&r["d"])?.to_plain_month_day(),
         "new" => PlainMonthDay::new_with_overflow(js::i(r, "m") as u8, js::i(r, "d") as u8, iso(), r_ovf(r), r.get("ry").and_then(|x| x.as_i64()).map(|x| x as i32)),
+        "default" => Ok(PlainMonthDay::default()),
         k => panic!("month-day route {}", k),
     }
 }
